@@ -60,7 +60,8 @@ LoadFails(e) ==
   \cup (IF On("C16") THEN
         F(e.retnull = 0 => e.ids = Ids(old) \o [i \in 1..nnew |-> nextId + i - 1], "C16.append")
         \* ... one item per element of the document, whatever state the keyring was in (an earlier failed load included)
-        \cup F((e.retnull = 0 /\ e.doc \in {"keys", "keysextra", "single", "toparray", "jsonother"}) => nnew = DocItemCount(e.doc, nk), "C16.append-all")
+        \* (a load that met an allocation fault may leave items out - C17 judges that; the list it leaves is still a list)
+        \cup F((e.retnull = 0 /\ ~Has(e, "fault_site") /\ e.doc \in {"keys", "keysextra", "single", "toparray", "jsonother"}) => nnew = DocItemCount(e.doc, nk), "C16.append-all")
         \cup F(e.retnull = 0 => e.count = Len(old) + nnew, "C16.count")
         \cup F(e.retnull = 0 => e.errany = e.seterr + BadCount(old) + Cardinality({i \in 1..nnew : e.new[i].err = 1}), "C16.errany")
         ELSE {})
@@ -165,7 +166,11 @@ C05GenFails(e, b) ==
               \* a time claim the library does NOT add is the application's: the token carries what the builder was given
               /\ (~b.iat /\ "iat" \in DOMAIN b.clm => "iat" \in DOMAIN cs /\ cs["iat"] = b.clm["iat"])
               /\ (~b.expOn /\ "exp" \in DOMAIN b.clm => "exp" \in DOMAIN cs /\ cs["exp"] = b.clm["exp"])
-              /\ (~b.nbfOn /\ "nbf" \in DOMAIN b.clm => "nbf" \in DOMAIN cs /\ cs["nbf"] = b.clm["nbf"]), "C05.added-members")
+              /\ (~b.nbfOn /\ "nbf" \in DOMAIN b.clm => "nbf" \in DOMAIN cs /\ cs["nbf"] = b.clm["nbf"])
+              \* ... and a time claim nobody asked for is not there (an offset of 0 or less switches the claim off)
+              /\ (~b.iat /\ "iat" \notin DOMAIN b.clm => "iat" \notin DOMAIN cs)
+              /\ (~b.expOn /\ "exp" \notin DOMAIN b.clm => "exp" \notin DOMAIN cs)
+              /\ (~b.nbfOn /\ "nbf" \notin DOMAIN b.clm => "nbf" \notin DOMAIN cs), "C05.added-members")
 \* C05: what the checker callback reads is what the token carries
 C05ReadFails(e) ==
   IF ~(e.tok.src = "slot" /\ Has(e, "cbres") /\ Len(e.cbres) > 0) THEN {}
@@ -234,6 +239,9 @@ GenerateFails(e) ==
                    /\ e.thdr = e.fresh.thdr /\ e.tclm = e.fresh.tclm /\ e.talg = e.fresh.talg
                    /\ (e.talg \in HSAlgs \cup RSAlgs \cup EdAlgs \cup {"none"} => e.tokdig = e.fresh.tokdig), "C13.generate.tok")
         ELSE {})
+  \* as for verify: whether a token comes out is THE function of configuration and clock the specification computes
+  \* (state a fresh builder in the same process shares is hidden state too)
+  \cup (IF On("C13") THEN F((ref.ret = ANY) \/ ((ref.ret = "tok") <=> (e.ret = "tok")), "C13.genfunction") ELSE {})
   \cup (IF On("C12") THEN F(P_GenSig(b, now, rings, ops, g), "C12.gensig") ELSE {})        \* the token carries the CURRENT key's signature
   \cup (IF On("C12") /\ Has(e, "cmp") /\ e.cmp \in DOMAIN memo THEN F(memo[e.cmp] = (IF e.ret = "tok" THEN e.tokdig ELSE "null"), "C12.token") ELSE {})
   \cup (IF On("C15") /\ b.hascb /\ Has(e, "cbres")
@@ -391,6 +399,8 @@ Fails(e) == (IF IsOpEvent(e) THEN FaultFails(e) ELSE {}) \cup
                       \cup F(e.exit2 = 0 /\ e.nfiles = 1, "C20.jwk2key-exit")
                       \cup (IF e.exit2 # 0 \/ e.nfiles # 1 \/ e.exit3 # 0 THEN F(e.exit3 = 0, "C20.jwk2key-output")
                             ELSE F(P_SameKey(e.imp2, e.kty, e.bits, e.priv) /\ SameRsaType(e, e.imp2), "C20.jwk2key-samekey")))
+    \* C02 on the command line: an explicit algorithm that disagrees with the key's alg attribute is a pair outside the table
+    [] e.e = "ToolPin" -> IF On("C02") THEN F((e.match = 0 => e.ver_exit # 0) /\ ((e.match = 1 /\ e.gen_exit = 0) => e.ver_exit = 0), "C02.tool-pin") ELSE {}
     [] e.e = "ToolKeyConvMulti" ->
          IF ~On("C20") THEN {}
          ELSE F(e.exit1 = 0 /\ e.nkeys1 = e.n /\ Len(e.imps) = e.n, "C20.key2jwk-multi-exit")
@@ -406,6 +416,7 @@ Fails(e) == (IF IsOpEvent(e) THEN FaultFails(e) ELSE {}) \cup
                           \* under an application allocator: every block obtained from it during the case went back to it
                           \* (a block released with libc's free() instead is a leak to a pool or a quota allocator)
                           \cup (IF Has(e, "trk") /\ Prop \in LeakProps THEN F(e.trk = 0, Prop \o ".allocleak") ELSE {})
+    [] e.e = "FaultEnd" -> IF Has(e, "leak") /\ Prop \in LeakProps THEN F(e.leak = 0, Prop \o ".leak") ELSE {}
     [] e.e = "End" -> IF Has(e, "leak") /\ Prop \in LeakProps THEN F(e.leak = 0, Prop \o ".leak") ELSE {}
     [] e.e = "Abort" -> {"abort." \o e.why}
     [] OTHER -> ConfigFails(e)
